@@ -33,10 +33,11 @@ PCS_THOROUGH = PCS_QUICK + [(372.3, 661.9), (455.1, 641.0), (410.0, 720.0), (480
 
 
 # ---- implementation side (worker processes) ---------------------------------------------------------------------
-def _z_point(gas, T, p, tpc, ppc):
-    """One call of the real z_factor_DAK and the reference measurements at the reduced state the code itself uses."""
+def _z_point(gas, T, p, tpc, ppc, T_arg=None, p_arg=None):
+    """One call of the real z_factor_DAK and the reference measurements at the reduced state the code itself uses.
+    T_arg / p_arg: the objects actually handed over (a 0-d array kept by the caller and used again, a numpy scalar)."""
     try:
-        z = float(gas.z_factor_DAK(T, p, tpc, ppc))
+        z = float(gas.z_factor_DAK(T if T_arg is None else T_arg, p if p_arg is None else p_arg, tpc, ppc))
         note = None
     except Exception as ex:  # noqa: BLE001  an exception inside the domain is an observation (Z = NaN)
         z, note = math.nan, repr(ex)[:160]
@@ -66,8 +67,18 @@ def _isotherm(task):
             gas.z_factor_DAK(T, prn * task["ppc"], other - RANK, task["ppc"] * 1.07)
         except Exception:  # noqa: BLE001  (the warm-up is not what is judged)
             pass
+    # the reservoir temperature of an isotherm is one object for the whole sweep: a Python float, a numpy scalar, or the 0-d array
+    # an interpolator or a table cell hands back; pressures likewise
+    form = int(round(task["tr"] * 1000 + task["tpcR"])) % 4
+    T_obj = {0: None, 1: np.float64(T), 2: np.array(T, dtype=np.float64), 3: np.array([T], dtype=np.float64)[0:1].reshape(())}[form]
     for prn in task["prs"]:
-        d = _z_point(gas, T, prn * task["ppc"], tpc, task["ppc"])
+        p_val = prn * task["ppc"]
+        p_obj = np.array(p_val, dtype=np.float64) if form == 3 else None
+        d = _z_point(gas, T, p_val, tpc, task["ppc"], T_arg=T_obj, p_arg=p_obj)
+        if p_obj is not None:   # the same pressure object evaluated once more
+            d2 = _z_point(gas, T, p_val, tpc, task["ppc"], T_arg=T_obj, p_arg=p_obj)
+            if not (d2["z"] == d["z"] or (d2["z"] != d2["z"] and d["z"] != d["z"])):
+                d = d2 | {"second_evaluation_of_the_same_objects": True, "first_z": d["z"]}
         d["pr_nominal"] = prn
         d["tr_nominal"] = task["tr"]
         if task.get("hy"):
